@@ -1611,3 +1611,268 @@ Lemma later_rule_witness :
   serve false (fun _ => false) (fun _ => false) [php_rule; pl_rule] 0 (bs "/cgi/tool.pl/extra/info") = ODispatch 1 (bs "/cgi/tool.pl/extra/info") /\
   serve false (fun _ => true) (fun _ => true) [php_rule] 0 (bs "/cgi/tool.pl") = ONext.
 Proof. vm_compute. repeat split; reflexivity. Qed.
+
+
+(* ================= the directive's setup ================= *)
+Lemma fold_apply_item its : forall r,
+  fold_left apply_item its r =
+  {| r_path := r_path r;
+     r_ext := last_of (fun it => match it with IExt v => Some v | _ => None end) its (r_ext r);
+     r_split := last_of (fun it => match it with ISplit v => Some v | _ => None end) its (r_split r);
+     r_index := last_of (fun it => match it with IIndex l => Some l | _ => None end) its (r_index r);
+     r_except := last_of (fun it => match it with IExcept l => Some l | _ => None end) its (r_except r);
+     r_env := r_env r ++ flat_map (fun it => match it with IEnv k v => [(k, v)] | _ => [] end) its;
+     r_root := last_of (fun it => match it with IRoot v => Some v | _ => None end) its (r_root r) |}.
+Proof.
+  induction its as [|it its IH]; intros r.
+  - cbn. rewrite app_nil_r. destruct r; reflexivity.
+  - cbn [fold_left]. rewrite IH. destruct it; cbn; try rewrite <- app_assoc; reflexivity.
+Qed.
+
+Lemma parse_rule_is_declared absroot c r :
+  parse_rule absroot c = Some r -> r = eff_rule absroot c.
+Proof.
+  unfold parse_rule, eff_rule, is_php, preset. destruct (c_preset c) as [name|].
+  - destruct (beq name (bs "php")); [|discriminate].
+    intros H. injection H as <-. rewrite fold_apply_item. reflexivity.
+  - intros H. injection H as <-. rewrite fold_apply_item. reflexivity.
+Qed.
+
+Lemma parse_rule_refuses_iff absroot c :
+  parse_rule absroot c = None <-> preset_known c = false.
+Proof.
+  unfold parse_rule, preset_known, preset. destruct (c_preset c) as [name|].
+  - destruct (beq name (bs "php")); split; intros H; try discriminate; reflexivity.
+  - split; discriminate.
+Qed.
+
+Lemma parse_rules_are_declared absroot : forall cs rs,
+  parse_rules absroot cs = Some rs -> rs = map (eff_rule absroot) cs.
+Proof.
+  induction cs as [|c cs IH]; intros rs H; cbn in H.
+  - injection H as <-. reflexivity.
+  - destruct (parse_rule absroot c) as [r|] eqn:E; [|discriminate].
+    destruct (parse_rules absroot cs) as [rs'|]; [|discriminate].
+    injection H as <-. cbn. rewrite (parse_rule_is_declared _ _ _ E), (IH _ eq_refl). reflexivity.
+Qed.
+
+Lemma parse_rules_accepts absroot : forall cs,
+  forallb preset_known cs = true -> exists rs, parse_rules absroot cs = Some rs.
+Proof.
+  induction cs as [|c cs IH]; intros H; cbn in *; [eexists; reflexivity|].
+  apply andb_prop in H as [Hc Hcs].
+  destruct (parse_rule absroot c) as [r|] eqn:E.
+  - destruct (IH Hcs) as [rs ->]. eexists; reflexivity.
+  - apply parse_rule_refuses_iff in E. congruence.
+Qed.
+
+(* the last setting of a kind given in the block is the one in effect, whatever the preset says *)
+Lemma last_of_app_one {A} (f : item -> option A) its it v d :
+  f it = Some v -> last_of f (its ++ [it]) d = v.
+Proof.
+  revert d. induction its as [|x its IH]; intros d H; cbn.
+  - rewrite H. reflexivity.
+  - apply IH, H.
+Qed.
+Lemma last_of_skip {A} (f : item -> option A) its : forall post d,
+  forallb (fun it => match f it with None => true | Some _ => false end) post = true ->
+  last_of f (its ++ post) d = last_of f its d.
+Proof.
+  assert (P : forall post d, forallb (fun it => match f it with None => true | Some _ => false end) post = true ->
+                             last_of f post d = d).
+  { induction post as [|x post IH]; intros d H; cbn in *; [reflexivity|].
+    apply andb_prop in H as [Hx Hp]. destruct (f x); [discriminate|]. apply IH, Hp. }
+  induction its as [|x its IH]; intros post d H; cbn.
+  - apply P, H.
+  - apply IH, H.
+Qed.
+
+Lemma forallb_eq {A} (f g : A -> bool) l : (forall x, f x = g x) -> forallb f l = forallb g l.
+Proof. intros E. induction l as [|x l IH]; cbn; [reflexivity|]. rewrite E, IH. reflexivity. Qed.
+
+Lemma block_ext_overrides_preset absroot path pre its v post r :
+  forallb (fun it => match it with IExt _ => false | _ => true end) post = true ->
+  parse_rule absroot {| c_path := path; c_preset := pre; c_items := its ++ IExt v :: post |} = Some r ->
+  r_ext r = v.
+Proof.
+  intros Hpost H. apply parse_rule_is_declared in H. subst r. cbn [eff_rule r_ext c_items].
+  replace (its ++ IExt v :: post) with ((its ++ [IExt v]) ++ post) by (rewrite <- app_assoc; reflexivity).
+  rewrite last_of_skip.
+  - apply last_of_app_one. reflexivity.
+  - rewrite (forallb_eq _ (fun it => match it with IExt _ => false | _ => true end)); [exact Hpost|]. intros [ | | | | | | ]; reflexivity.
+Qed.
+Lemma block_split_overrides_preset absroot path pre its v post r :
+  forallb (fun it => match it with ISplit _ => false | _ => true end) post = true ->
+  parse_rule absroot {| c_path := path; c_preset := pre; c_items := its ++ ISplit v :: post |} = Some r ->
+  r_split r = v.
+Proof.
+  intros Hpost H. apply parse_rule_is_declared in H. subst r. cbn [eff_rule r_split c_items].
+  replace (its ++ ISplit v :: post) with ((its ++ [ISplit v]) ++ post) by (rewrite <- app_assoc; reflexivity).
+  rewrite last_of_skip.
+  - apply last_of_app_one. reflexivity.
+  - rewrite (forallb_eq _ (fun it => match it with ISplit _ => false | _ => true end)); [exact Hpost|]. intros [ | | | | | | ]; reflexivity.
+Qed.
+Lemma block_index_overrides_preset absroot path pre its v post r :
+  forallb (fun it => match it with IIndex _ => false | _ => true end) post = true ->
+  parse_rule absroot {| c_path := path; c_preset := pre; c_items := its ++ IIndex v :: post |} = Some r ->
+  r_index r = v.
+Proof.
+  intros Hpost H. apply parse_rule_is_declared in H. subst r. cbn [eff_rule r_index c_items].
+  replace (its ++ IIndex v :: post) with ((its ++ [IIndex v]) ++ post) by (rewrite <- app_assoc; reflexivity).
+  rewrite last_of_skip.
+  - apply last_of_app_one. reflexivity.
+  - rewrite (forallb_eq _ (fun it => match it with IIndex _ => false | _ => true end)); [exact Hpost|]. intros [ | | | | | | ]; reflexivity.
+Qed.
+
+(* end to end at model level: a preset plus a block that names its own extension (and splits there) —
+   an existing script with THAT extension, in any letter case, under the rule reaches the responder *)
+Lemma preset_with_own_ext_dispatched absroot c r stat_ok open_ok p :
+  parse_rule absroot c = Some r ->
+  let d := eff_rule absroot c in
+  rule_matches false d p = true -> allowed false d p = true ->
+  r_ext d <> [] -> last_byte (r_ext d) <> Some SLASH ->
+  to_lower (r_split d) = to_lower (r_ext d) ->
+  has_suffix (to_lower (trim_right p)) (to_lower (r_ext d)) = true ->
+  exists j, serve false stat_ok open_ok [r] 0 p = ODispatch j (trim_right p).
+Proof.
+  intros H d. apply parse_rule_is_declared in H. subst r. intros.
+  eapply serve_ext_dispatched_default with (r := d); eauto. left; reflexivity.
+Qed.
+
+(* ================= several readers at once ================= *)
+Lemma rd_step_no_panic r m : exists r', rd_step r m = Ok r'.
+Proof.
+  unfold rd_step. destruct (rd_err r); [eexists; reflexivity|].
+  destruct (sr_read_no_panic (rd_s r) m) as [[[d e] s'] ->]. cbn. eexists; reflexivity.
+Qed.
+
+Lemma upd_nth_spec f : forall l i l',
+  upd_nth i f l = Ok l' ->
+  length l' = length l /\
+  forall j d, nth j l' d = if Nat.eqb j i then match nth_error l i with
+                                                | Some r => match f r with Ok r' => r' | Panic => d end
+                                                | None => d end
+                           else nth j l d.
+Proof.
+  induction l as [|r l IH]; intros i l' H.
+  - destruct i; cbn in H; injection H as <-; split; [reflexivity| |reflexivity|];
+      intros j d; destruct j; cbn; try reflexivity; destruct (Nat.eqb _ _); reflexivity.
+  - destruct i as [|i]; cbn [upd_nth] in H.
+    + destruct (f r) as [r'|] eqn:E; cbn in H; [|discriminate]. injection H as <-.
+      split; [reflexivity|]. intros j d. destruct j; cbn; [rewrite E|]; reflexivity.
+    + destruct (upd_nth i f l) as [t'|] eqn:E; cbn in H; [|discriminate]. injection H as <-.
+      destruct (IH _ _ E) as [Hlen Hnth]. split; [cbn; congruence|].
+      intros j d. destruct j; cbn; [reflexivity|]. apply Hnth.
+Qed.
+
+(* under ANY schedule, what reader i ends up with is what it gets reading ITS stream alone with its
+   own buffer sizes: the readers of different responses do not influence each other *)
+Lemma run_sched_independent : forall sched rs rs' i d,
+  run_sched rs sched = Ok rs' -> (i < length rs)%nat ->
+  rd_run (nth i rs d) (sizes_of i sched) = Ok (nth i rs' d) /\ length rs' = length rs.
+Proof.
+  induction sched as [|[k m] sched IH]; intros rs rs' i d H Hi.
+  - cbn in H. injection H as <-. split; reflexivity.
+  - cbn [run_sched] in H.
+    destruct (upd_nth k (fun r => rd_step r m) rs) as [rs1|] eqn:E; cbn in H; [|discriminate].
+    destruct (upd_nth_spec _ _ _ _ E) as [Hlen Hnth].
+    destruct (IH rs1 rs' i d H) as [Hrun Hlen']; [rewrite Hlen; exact Hi|].
+    split; [|congruence].
+    unfold sizes_of. cbn [filter fst]. rewrite Nat.eqb_sym.
+    rewrite (Hnth i d) in Hrun. destruct (Nat.eqb i k) eqn:Eik.
+    + apply Nat.eqb_eq in Eik. subst k. cbn [map snd rd_run].
+      destruct (nth_error rs i) as [r|] eqn:En.
+      * rewrite (nth_error_nth _ _ d En).
+        destruct (rd_step_no_panic r m) as [r' Er]. rewrite Er in *. cbn. exact Hrun.
+      * apply nth_error_None in En. lia.
+    + exact Hrun.
+Qed.
+
+Lemma rd_run_err r sizes e : rd_err r = Some e -> rd_run r sizes = Ok r.
+Proof.
+  intros He. induction sizes as [|m sizes IH]; [reflexivity|].
+  cbn [rd_run]. unfold rd_step. rewrite He. cbn. exact IH.
+Qed.
+
+Lemma rd_run_is_read_all : forall sizes r r',
+  rd_err r = None -> rd_run r sizes = Ok r' ->
+  sr_read_all (rd_s r) sizes (rd_acc r) = Ok (concat (rev (rd_acc r')), rd_err r', rd_s r').
+Proof.
+  induction sizes as [|m sizes IH]; intros r r' Hn H.
+  - cbn in H. injection H as <-. cbn. rewrite Hn. reflexivity.
+  - cbn [rd_run] in H. unfold rd_step in H. rewrite Hn in H.
+    cbn [sr_read_all].
+    destruct (sr_read (rd_s r) m) as [[[d e] s']|] eqn:E; cbn in H |- *; [|discriminate].
+    destruct e as [err|].
+    + rewrite rd_run_err with (e := err) in H by reflexivity. injection H as <-. reflexivity.
+    + apply IH in H; [exact H | reflexivity].
+Qed.
+
+Lemma responses_do_not_share_buffers conns sched rs i :
+  (i < length conns)%nat ->
+  run_sched (map rd_init conns) sched = Ok rs ->
+  sr_read_all (sr_init (nth i conns [])) (sizes_of i sched) [] =
+    Ok (rd_data (nth i rs (rd_init [])), rd_err (nth i rs (rd_init [])), rd_s (nth i rs (rd_init []))).
+Proof.
+  intros Hi H.
+  destruct (run_sched_independent sched _ _ i (rd_init []) H) as [Hrun _]; [rewrite map_length; exact Hi|].
+  change (rd_init []) with (rd_init (@nil N)) in *.
+  rewrite (map_nth rd_init conns [] i) in Hrun.
+  apply rd_run_is_read_all in Hrun; [|reflexivity]. exact Hrun.
+Qed.
+
+Lemma run_sched_no_panic : forall sched rs, exists rs', run_sched rs sched = Ok rs'.
+Proof.
+  assert (U : forall m l i, exists l', upd_nth i (fun r => rd_step r m) l = Ok l').
+  { intros m. induction l as [|r l IH]; intros i; [destruct i; eexists; reflexivity|].
+    destruct i as [|i]; cbn [upd_nth].
+    - destruct (rd_step_no_panic r m) as [r' ->]. eexists; reflexivity.
+    - destruct (IH i) as [l' ->]. eexists; reflexivity. }
+  induction sched as [|[k m] sched IH]; intros rs; [eexists; reflexivity|].
+  cbn [run_sched]. destruct (U m rs k) as [rs1 ->]. cbn. apply IH.
+Qed.
+
+(* witnesses *)
+Definition php5_cfg : rcfg :=
+  {| c_path := bs "/"; c_preset := Some (bs "php");
+     c_items := [IExt (bs ".php5"); ISplit (bs ".php5"); IIndex [bs "index.php5"]; IEnv (bs "APP_ENV") (bs "prod"); IOther] |}.
+Lemma php5_cfg_witness :
+  parse_rule (bs "/srv") php5_cfg =
+    Some {| r_path := bs "/"; r_ext := bs ".php5"; r_split := bs ".php5"; r_index := [bs "index.php5"];
+            r_except := []; r_env := [(bs "APP_ENV", bs "prod")]; r_root := bs "/srv" |} /\
+  parse_rule (bs "/srv") {| c_path := bs "/"; c_preset := Some (bs "php"); c_items := [] |} =
+    Some {| r_path := bs "/"; r_ext := bs ".php"; r_split := bs ".php"; r_index := [bs "index.php"];
+            r_except := []; r_env := []; r_root := bs "/srv" |} /\
+  parse_rule (bs "/srv") {| c_path := bs "/"; c_preset := Some (bs "python"); c_items := [IExt (bs ".py")] |} = None /\
+  (exists r, parse_rule (bs "/srv") php5_cfg = Some r /\
+     serve false (fun _ => true) (fun _ => true) [r] 0 (bs "/info.php5") = ODispatch 0 (bs "/info.php5") /\
+     serve false (fun _ => true) (fun _ => true) [r] 0 (bs "/INFO.PHP5") = ODispatch 0 (bs "/INFO.PHP5")).
+Proof.
+  split; [vm_compute; reflexivity|]. split; [vm_compute; reflexivity|]. split; [vm_compute; reflexivity|].
+  eexists. split; [vm_compute; reflexivity|]. split; vm_compute; reflexivity.
+Qed.
+
+Definition two_conns : list bytes :=
+  [ enc_rec (T_STDOUT, bs "AAAAAAAA", 0) ++ enc_rec end_rec;
+    enc_rec (T_STDOUT, bs "BBBB", 3) ++ enc_rec (T_STDERR, bs "e", 0) ++ enc_rec (T_STDOUT, bs "bb", 0) ++ enc_rec end_rec ].
+Lemma two_conns_witness :
+  exists rs, run_sched (map rd_init two_conns) [(0, 3); (1, 8); (1, 8); (0, 8); (1, 8); (0, 8)]%nat = Ok rs /\
+             map rd_data rs = [bs "AAAAAAAA"; bs "BBBBbb"] /\ map rd_err rs = [Some REOF; Some REOF].
+Proof. eexists. split; [vm_compute; reflexivity|]. split; vm_compute; reflexivity. Qed.
+
+Lemma block_settings_win absroot path pre its post r :
+  parse_rule absroot {| c_path := path; c_preset := pre; c_items := its ++ post |} = Some r ->
+  (forall v tl, post = IExt v :: tl -> forallb (fun it => match it with IExt _ => false | _ => true end) tl = true -> r_ext r = v) /\
+  (forall v tl, post = ISplit v :: tl -> forallb (fun it => match it with ISplit _ => false | _ => true end) tl = true -> r_split r = v) /\
+  (forall v tl, post = IIndex v :: tl -> forallb (fun it => match it with IIndex _ => false | _ => true end) tl = true -> r_index r = v).
+Proof.
+  intros H. repeat split; intros v tl E Hp; subst post.
+  - eapply block_ext_overrides_preset; eauto.
+  - eapply block_split_overrides_preset; eauto.
+  - eapply block_index_overrides_preset; eauto.
+Qed.
+
+Lemma setup_rules_are_declared absroot cs :
+  (forall rs, parse_rules absroot cs = Some rs -> rs = map (eff_rule absroot) cs) /\
+  (forallb preset_known cs = true -> exists rs, parse_rules absroot cs = Some rs).
+Proof. split; [apply parse_rules_are_declared | apply parse_rules_accepts]. Qed.
